@@ -63,7 +63,9 @@ TIGHT = [_mk("tpcn", "mult", False, 0.05), _mk("rwm", "syst", False, 0.06), _mk(
 # a two-mode target with clustering on (several modes: per-mode sigmas, mode_index), all in both metric modes
 EXTRA = [_mk("tpcn", "syst", False, None, hole=True), _mk("rwm", "mult", True, None, hole=True, blobs=True),
          _mk("tpcn", "mult", True, None, bimodal=True, n=32, n_total=96), _mk("rwm", "syst", True, 0.5, bimodal=True, n=32, n_total=96),
-         _mk("tpcn", "syst", False, 0.2, blobs=True, hole=True), _mk("rwm", "mult", False, 0.1, hole=True)]
+         _mk("tpcn", "syst", False, 0.2, blobs=True, hole=True), _mk("rwm", "mult", False, 0.1, hole=True),
+         # support fraction 2.25 %: whole warm-up batches without a finite draw (the redraw loop of Mutator.run, n_drawn > n)
+         _mk("tpcn", "syst", False, None, tiny=True), _mk("rwm", "mult", True, 0.5, tiny=True, blobs=True)]
 SHIFTS = [1.0, -1.0, 37.5, -37.5, 1000.0, -1000.0]
 
 _TRACES = {}
@@ -99,7 +101,7 @@ def shift_violation(cfg, c, seed):
 
 def _tags(c, cfg, t):
     c.count(f"{cfg['kernel']}/{cfg['resample']}/cl={int(cfg['clustering'])}/vv={cfg['vv']}")
-    for k in ("hole", "blobs", "bimodal"):
+    for k in ("hole", "blobs", "bimodal", "tiny"):
         if cfg.get(k):
             c.count(k)
     if t.error:
@@ -108,6 +110,7 @@ def _tags(c, cfg, t):
     c.count("iterations", len(t.iters))
     c.count("annealing iterations", len(t.trim))
     c.count("warm-up draws replaced (-inf)", sum(len(x) for x in t.choices))
+    c.count("warm-up batches discarded (no finite draw: redraw loop)", len(t.draws) - sum(1 for i in t.iters if i["beta"] == 0.0))
     c.count("accept/reject steps", len(t.props))
     c.count("proposals with zero likelihood", sum(1 for st_ in t.props for (k, _, b) in st_ if b and t.like[k] == -np.inf))
     c.count("proposals outside the cube", sum(1 for st_ in t.props for (_, _, b) in st_ if not b))
